@@ -17,6 +17,7 @@ type RegistryImpl struct {
 	nextID              uint64
 	cleanupTicker       *time.Ticker
 	stopCleanup         chan struct{}
+	stopOnce            sync.Once
 	connectionTxs       map[string]map[string]struct{}
 	txTTL               time.Duration
 	txWarningThreshold  int
@@ -367,9 +368,12 @@ func (r *RegistryImpl) CleanupConnection(connectionID string) {
 
 // GracefulShutdown cleans up all transactions
 func (r *RegistryImpl) GracefulShutdown(ctx context.Context) error {
-	// Stop the cleanup goroutine
-	close(r.stopCleanup)
-	r.cleanupTicker.Stop()
+	// Stop the cleanup goroutine (once: a second shutdown must not close the
+	// channel again, it only rolls back what has been registered since)
+	r.stopOnce.Do(func() {
+		close(r.stopCleanup)
+		r.cleanupTicker.Stop()
+	})
 
 	r.mu.Lock()
 	defer r.mu.Unlock()
